@@ -15,7 +15,7 @@ for pid, c in claims.CLAIMS.items():
         "quick_cmd": f"./check {pid} --tier quick",
         "thorough_cmd": f"./check {pid} --tier thorough",
         "evidence_file": f"/verif/evidence/{pid}.json",
-        "replay_cmd_template": "cat {path}",
+        "replay_cmd_template": "./check replay {path}",
         "engine": "sa",
         "level_claimed": {"category": "other", "text": c["text"], "design_ref": c["ref"]},
         "level_note": c["note"],
